@@ -83,7 +83,10 @@ func newBiscuit(root ed25519.PrivateKey, baseSymbols *datalog.SymbolTable, autho
 
 	symbols.Extend(authority.symbols)
 
-	nextPublicKey, nextPrivateKey, _ := ed25519.GenerateKey(options.rng)
+	nextPublicKey, nextPrivateKey, err := ed25519.GenerateKey(options.rng)
+	if err != nil {
+		return nil, err
+	}
 
 	protoAuthority, err := tokenBlockToProtoBlock(authority)
 	if err != nil {
@@ -177,7 +180,10 @@ func (b *Biscuit) Append(rng io.Reader, block *Block) (*Biscuit, error) {
 	symbols := b.symbols.Clone()
 	symbols.Extend(block.symbols)
 
-	nextPublicKey, nextPrivateKey, _ := ed25519.GenerateKey(rng)
+	nextPublicKey, nextPrivateKey, err := ed25519.GenerateKey(rng)
+	if err != nil {
+		return nil, err
+	}
 
 	// serialize and sign the new block
 	protoBlock, err := tokenBlockToProtoBlock(block)
